@@ -55,7 +55,7 @@ CHECKS = {
         "non-trivial = the run completed and contained at least one early (cached) delivery and one duplicate; distinct = hash of the choice stream",
         8000, 120000, assumptions=ASYNC_ASSUME + ["synchrony: latency and Reset lag are far below TimePerBlock; timers fire exactly at their deadline"]),
     "C09": rapid("TestC09",
-        "case = one timed world (N 4..7) of a drawn fault family: (i) <=F validators silent from the start, preferably the primaries of the first views; (ii) a drawn subset cut off at a drawn instant for up to 30 block times, then healed; (iii) crash + amnesia restart of one validator (preferably the current primary); "
+        "case = one timed world (N 4..10) of a drawn fault family: (i) <=F validators silent from the start, preferably the primaries of the first views; (ii) a drawn subset cut off at a drawn instant for up to 30 block times, then healed; (iii) crash + amnesia restart of one validator (preferably the current primary); "
         "after the last fault latency <= TimePerBlock/20 and every node runs ledger block-sync with a drawn period; horizon = last fault + heights*TimePerBlock*2^(highest view then + F + 4); hitting the event budget is inconclusive, never a violation; "
         "non-trivial = the run completed and had a decision in view>0, a ledger sync or a restart; distinct = hash of the choice stream",
         8000, 120000, assumptions=ASYNC_ASSUME + ["'eventually' is replaced by the stated virtual-time horizon", "applications fetch missing blocks from reachable peers (the contract's 'received by other means')"]),
@@ -86,9 +86,9 @@ CHECKS["C19"]["fuzz"] = [("FuzzC19Decode", 150)]
 CHECKS["C11"]["fuzz"] = [("FuzzC11", 240)]
 CHECKS["C17"] = {
     "custom": "c17",
-    "rule": "case = one configuration of the real simulation binary built from the working tree (-count 1..7, -watchers 0..3, -txblock 0..3, -txcount in {0,1,3,100,2000}, GOMAXPROCS in {1,2,4,16}, 17-31 s of wall time; block interval is hard-coded to 5 s); the documented shape (4 validators + 1 watcher) and a run whose transaction pools run dry after 1-3 blocks are always included; "
+    "rule": "case = one configuration of the real simulation binary built from the working tree (-count 1..7, -watchers 0..3, -txblock 0..3, -txcount in {0,1,3,100,2000}, GOMAXPROCS in {1,2,4,16}, 17-31 s of wall time; block interval is hard-coded to 5 s); the documented shape (4 validators + 1 watcher), a run whose transaction pools run dry after 1-3 blocks, a single-validator run and a run without transactions are always included; "
             "oracle on its log: every validator and watcher approves consecutive heights 1..k with floor(D/5)-1 <= k <= floor(D/5)+2, one hash per height across nodes, no panic; non-trivial = count >= 2; distinct = distinct configurations",
-    "quick": {"runs": 3, "parallel": 3},
+    "quick": {"runs": 5, "parallel": 5},
     "thorough": {"runs": 16, "parallel": 4},
     "assumptions": ["goroutine schedules of the real program are sampled, not owned", "wall-clock based: bounds are one block of slack below and two above", "runs are isolated in network namespaces (the program binds localhost:6060) or serialised with a lock"],
 }
